@@ -645,8 +645,10 @@ class TermEval:
             # Class(...) constructor calls bind self to the fresh object (unknown)
             amap[names[0]] = recv
             names = names[1:]
-        if any(a[0] in ("star",) for a in args) or any(k is None for k in kwargs):
+        if any(a[0] in ("star",) for a in args):
             return None
+        spread = [v for k, v in call_term[3] if k is None]   # **mapping arguments
+        kwargs.pop(None, None)
         a = callee.node.args
         pos = [x.arg for x in a.posonlyargs + a.args]
         if bound and pos:
@@ -655,6 +657,16 @@ class TermEval:
             amap[p] = v
         for k, v in kwargs.items():
             amap[k] = v
+        if spread:
+            # a parameter not bound explicitly may come out of the spread mapping (or keep its default)
+            every = [x.arg for x in a.posonlyargs + a.args + a.kwonlyargs]
+            if bound and every:
+                every = every[1:]
+            for p in every:
+                if p not in amap:
+                    amap[p] = ("call", ("global", "<from-spread-mapping>"), tuple(spread) + (("const", p),), ())
+            if a.kwarg is not None:
+                amap["**" + a.kwarg.arg] = spread[0] if len(spread) == 1 else ("tuple", tuple(spread))
         # defaults
         defaults = list(a.defaults)
         allpos = [x.arg for x in a.posonlyargs + a.args]
